@@ -45,6 +45,7 @@ def run(idx: Index, rep: Report, tier: str):
     check_link_placement(idx, rep)
     check_dmet_rebuild(idx, rep)
     check_dmet_electron_split(idx, rep)
+    check_fragment_one_body(idx, rep)
 
 
 # ---------------------------------------------------------------------------------------------------
@@ -243,26 +244,125 @@ class _Vec:
         return len(self.rows if self.rows is not None else self.v)
 
 
+def _interp(args, kwargs):
+    """numpy.interp for one concrete abscissa, concrete increasing sample points and symbolic sample values: linear between the points, CLAMPED to the end values
+    outside them (numpy's definition)"""
+    if kwargs or len(args) != 3:
+        raise Undecidable("np.interp with options")
+    x, xp, fp = args
+    try:
+        x = float(x)
+        xp = [float(v) for v in xp]
+    except (TypeError, ValueError):
+        raise Undecidable("np.interp on a symbolic abscissa")
+    fp = list(fp)
+    if len(xp) != len(fp) or len(xp) < 2 or any(b <= a for a, b in zip(xp, xp[1:])):
+        raise Undecidable("np.interp sample points")
+    if x <= xp[0]:
+        return sp.sympify(fp[0])
+    if x >= xp[-1]:
+        return sp.sympify(fp[-1])
+    for (a, b), (fa, fb) in zip(zip(xp, xp[1:]), zip(fp, fp[1:])):
+        if a <= x <= b:
+            return sp.sympify(fa) + sp.nsimplify((x - a) / (b - a)) * (sp.sympify(fb) - sp.sympify(fa))
+    raise Undecidable("np.interp")
+
+
 def check_link_placement(idx: Index, rep: Report):
     rule = "K9.link-placement"
     f = idx.function(f"{HELP}::Link.relink")
     xs = [[sp.Symbol(f"{c}{i}", real=True) for c in "xyz"] for i in range(4)]
     geometry = [("C", tuple(xs[0])), ("C", tuple(xs[1])), ("O", tuple(xs[2])), ("H", tuple(xs[3]))]
-    fac = sp.Symbol("f", real=True)
-    for staying, leaving, species in ((0, 1, [("H", (0., 0., 0.))]), (2, 0, [("F", (0., 0., 0.))]), (3, 1, [("X", (9., 9., 9.)), ("Cl", (0., 0., 0.))])):
-        link = Rec("Link", {"staying": staying, "leaving": leaving, "factor": fac, "species": species})
-        fo = make_folder(idx, HELP, ctors={"np.array": lambda a, k: _Vec(list(a[0]))})
-        fo.env["warnings"] = Opaque("warnings")
+
+    def vec(a, k):
         try:
-            got = fo.run_function(f.node, {"self": link, "geometry": list(geometry)})
-        except (Undecidable, Raised) as e:
-            raise AnalysisError(f"Link.relink not foldable: {e}")
-        el = [s[0] for s in species if s[0].upper() != "X"][0]
-        want = [xs[staying][k] + fac * (xs[leaving][k] - xs[staying][k]) for k in range(3)]
-        ok = isinstance(got, list) and len(got) == 1 and got[0][0] == el and all(sp.simplify(sp.sympify(got[0][1][k]) - want[k]) == 0 for k in range(3))
-        rep.decide(ok, rule, f, f.node, text=f"cap {el} for the bond {staying}-{leaving}: at staying + factor * (leaving - staying)",
-                   what="a single capping atom sits on the broken bond at the requested fraction of its length, measured from the atom that stays",
-                   reason=f"folds to {got}")
+            return _Vec(list(a[0]))
+        except (sp.SympifyError, TypeError) as e:
+            raise Undecidable(f"np.array of {a[0]!r:.60}: {e}")
+    # the scale factor: a symbol (any value), then values below, inside and beyond the bond (caps heavier than hydrogen sit beyond the atom that leaves)
+    n = 0
+    for fac in (sp.Symbol("f", real=True), sp.Rational(709, 1000), sp.Integer(1), sp.Rational(1157, 1000), sp.Rational(3, 2), sp.Rational(-1, 5)):
+        for staying, leaving, species in ((0, 1, [("H", (0., 0., 0.))]), (2, 0, [("F", (0., 0., 0.))]), (3, 1, [("X", (9., 9., 9.)), ("Cl", (0., 0., 0.))])):
+            link = Rec("Link", {"staying": staying, "leaving": leaving, "factor": fac if fac.is_Symbol else float(fac), "species": species})
+            fo = make_folder(idx, HELP, ctors={"np.array": vec, "np.interp": _interp})
+            fo.env["warnings"] = Opaque("warnings")
+            try:
+                got = fo.run_function(f.node, {"self": link, "geometry": list(geometry)})
+            except (Undecidable, Raised) as e:
+                if fac.is_Symbol:
+                    break               # written with an operation that needs a concrete factor: decided on the concrete factors below
+                raise AnalysisError(f"Link.relink not foldable: {e}")
+            n += 1
+            el = [s[0] for s in species if s[0].upper() != "X"][0]
+            want = [xs[staying][k] + fac * (xs[leaving][k] - xs[staying][k]) for k in range(3)]
+            ok = isinstance(got, list) and len(got) == 1 and got[0][0] == el and all(abs(complex(c)) < 1e-9 for k in range(3)
+                                                                                     for c in sp.Poly(sp.expand(sp.sympify(got[0][1][k]) - want[k]), *[v for r in xs for v in r], fac if fac.is_Symbol else sp.Symbol("unused")).coeffs())
+            rep.decide(ok, rule, f, f.node, text=f"cap {el} for the bond {staying}-{leaving}, factor {fac}: at staying + factor * (leaving - staying)",
+                       what="a single capping atom sits on the broken bond at the requested fraction of its length, measured from the atom that stays - beyond the "
+                            "leaving atom when the factor exceeds one",
+                       reason=f"folds to {got}")
+    rep.floor("link placements folded", n, 15)
+
+
+def _backward_slice(fnode: ast.AST, start: ast.AST) -> List[ast.AST]:
+    """the expressions `start` depends on inside one function, through local names: every right-hand side assigned to a name (or to a subscript / attribute
+    of it, or appended to it) that occurs in the slice, transitively"""
+    defs: Dict[str, List[ast.AST]] = {}
+    for n in ast.walk(fnode):
+        if isinstance(n, ast.Assign):
+            for t in n.targets:
+                for tt in (t.elts if isinstance(t, (ast.Tuple, ast.List)) else [t]):
+                    base = tt
+                    while isinstance(base, (ast.Subscript, ast.Attribute)):
+                        base = base.value
+                    if isinstance(base, ast.Name) and base.id != "self":
+                        defs.setdefault(base.id, []).append(n.value)
+        elif isinstance(n, ast.AugAssign) and isinstance(n.target, ast.Name):
+            defs.setdefault(n.target.id, []).append(n.value)
+        elif isinstance(n, ast.Call) and isinstance(n.func, ast.Attribute) and n.func.attr in ("append", "extend", "insert") and isinstance(n.func.value, ast.Name):
+            defs.setdefault(n.func.value.id, []).extend(n.args)
+    seen, out, todo = set(), [], [start]
+    while todo:
+        e = todo.pop()
+        out.append(e)
+        for x in ast.walk(e):
+            if isinstance(x, ast.Name) and x.id not in seen:
+                seen.add(x.id)
+                todo.extend(defs.get(x.id, []))
+    return out
+
+
+def check_fragment_one_body(idx: Index, rep: Report):
+    """The chemical potential of DMET reaches a fragment solver in exactly one way: the fragment's mean-field object carries a `get_hcore` that returns the
+    fragment Fock matrix with the potential subtracted on the fragment orbitals (set in dmet_scf.py).  The classical solvers read it through pyscf; the
+    Hamiltonian handed to the quantum solvers has to be built from the same matrix, or fragment electron numbers depend on the solver and cannot add up to
+    the total.  Rule: in every Hamiltonian builder of SecondQuantizedDMETFragment the one-body coefficients depend (def-use, within the method) on
+    `self.mean_field.get_hcore()`."""
+    rule = "K8.fragment-one-body"
+    SCF = "tangelo/problem_decomposition/dmet/_helpers/dmet_scf.py"
+    FRAG = "tangelo/problem_decomposition/dmet/fragment.py"
+    m = idx.module_by_relpath(SCF)
+    carriers = [n for f in m.functions.values() for n in ast.walk(f.node) if isinstance(n, ast.Assign) and norm(n.targets[0]).endswith(".get_hcore")]
+    if len(carriers) < 2:
+        raise AnalysisError("dmet_scf.py: the fragment mean field no longer receives its one-body matrix through get_hcore (premise of K8.fragment-one-body)")
+    ci = idx.cls(f"{FRAG}::SecondQuantizedDMETFragment")
+    n = 0
+    for name, meth in ci.methods.items():
+        if not name.startswith("_fermionic_hamiltonian"):
+            continue
+        # the one-body coefficients: second argument of InteractionOperator
+        ctor = [c for c in ast.walk(meth.node) if isinstance(c, ast.Call) and norm(c.func).endswith("InteractionOperator") and len(c.args) >= 2]
+        if len(ctor) != 1:
+            raise AnalysisError(f"{meth.ref}: InteractionOperator assembly not found")
+        sl = _backward_slice(meth.node, ctor[0].args[1])
+        has = any(isinstance(x, ast.Call) and norm(x.func) == "self.mean_field.get_hcore" for e in sl for x in ast.walk(e))
+        n += 1
+        rep.decide(has, rule, meth, ctor[0], text=f"{meth.qualname}: one-body coefficients {norm(ctor[0].args[1])} derive from self.mean_field.get_hcore()",
+                   what="the Hamiltonian given to a quantum fragment solver is built from the mean field's one-body matrix, the one that carries the chemical potential - as the "
+                        "classical fragment solvers read it",
+                   reason="the one-body coefficients do not depend on self.mean_field.get_hcore(): the chemical potential is missing from the quantum solvers' Hamiltonian, so the "
+                          "fragment electron numbers depend on the solver and no longer add up to the total")
+    rep.floor("fragment Hamiltonian builders", n, 2)
 
 
 # ---------------------------------------------------------------------------------------------------
